@@ -355,6 +355,7 @@ Lemma next_of_trad : forall r q,
 Proof.
   intros r q HT HL HS. inversion HT; subst.
   - lia.
+  - left. split; [reflexivity|]. rewrite segs_app_nil. split; lia.
   - right. left. split; [reflexivity|lia].
   - right. right. exists f, r0. repeat split; try assumption; lia.
 Qed.
